@@ -46,6 +46,9 @@ def events_from_harness(hid, toks, res):
 
 # ------------------------------------------------------------------ CLI binding
 
+HALF_BLANK = (1, 3)
+
+
 def make_images(scratch):
     """image files per kind; every surface has a distinct title and a file $.ID naming it."""
     def surf(tag, n=400):
@@ -55,8 +58,14 @@ def make_images(scratch):
     paths = {}
     for i in range(5):
         paths[(1, i)] = mkdisc.write(os.path.join(scratch, "one%d.ssd" % i), bytes(surf("I%dS0" % i)))
-        paths[(2, i)] = mkdisc.write(os.path.join(scratch, "two%d.dsd" % i),
-                                     mkdisc.container_interleaved(surf("I%dS0" % i), surf("I%dS1" % i), 10))
+        if i in HALF_BLANK:
+            # a one-sided disc in a two-sided image: side 1 was never formatted (0xE5 fill); it is still a surface of the image and
+            # takes its drive number (80 tracks, so that only one geometry can hold side 0's file system)
+            paths[(2, i)] = mkdisc.write(os.path.join(scratch, "two%d.dsd" % i),
+                                         mkdisc.container_interleaved(surf("I%dS0" % i, 800), bytes([0xE5]) * (800 * 256), 10))
+        else:
+            paths[(2, i)] = mkdisc.write(os.path.join(scratch, "two%d.dsd" % i),
+                                         mkdisc.container_interleaved(surf("I%dS0" % i), surf("I%dS1" % i), 10))
         slots = {s: bytes(surf("I%dS%d" % (i, s), 800)) for s in (0, 1, 2, 510 if i == 0 else 5)}
         paths[(3, i)] = mkdisc.write(os.path.join(scratch, "mmb%d.mmb" % i), mkdisc.container_mmb(slots, nslots_physical=6 if i else None))
     return paths
@@ -115,6 +124,8 @@ def cli_history(dfs, paths, toks, scratch):
         o = common.run([dfs] + argv + ["--show-config", "help"], timeout=60)
         ok = o.ok_alphabet() and o.rc == 0
         mp, unf = parse_config(o.err, names)
+        if k == 2 and nimg in HALF_BLANK:
+            unf = unf + [d_ for d_, i_, s_ in mp if i_ == nimg and s_ == 1]      # nothing can be read through a side without a file system
         ev.append(dict(e="attach", k=(511 if k == 3 else k), ok=ok, map=mp, unf=unf, cli=True))
         nimg += 1
     # reads: address every drive 0..max+1 in three ways; the title / ID file tells which surface was read
